@@ -8,6 +8,7 @@ import (
 	"fmt"
 	"io"
 	"math/rand"
+	"strconv"
 	"strings"
 
 	xmpp "gosrc.io/xmpp"
@@ -161,6 +162,10 @@ func c14opt(present bool, s string) string {
 }
 
 func (c14) Exec(c Case) []string {
+	if len(c.Variant) > 0 && c.Variant[0] == "neg" {
+		// a whole negotiation: the real Client.connect against the scripted server of the negotiation checks
+		return negProp{"C14"}.Exec(Case{ID: c.ID, Variant: c.Variant[1:], Ops: c.Ops})
+	}
 	var obs []string
 	for _, op := range c.Ops {
 		switch op[0] {
@@ -247,8 +252,40 @@ func c14replies() []c14reply {
 	}
 }
 
+// c14negCases: every reply class to <auth/> (the server goes on answering whatever it replied), in every
+// configuration of the steps around it, as whole negotiations over TCP (+TLS).
+func c14negCases(st *Stats) []Case {
+	var cases []Case
+	n := 0
+	bools := []bool{false, true}
+	for _, insecure := range bools {
+		for _, tlsOff := range bools {
+			if !insecure && !tlsOff {
+				continue // the TLS gate ends the negotiation before SASL
+			}
+			for _, mand := range bools {
+				for _, smAdv := range bools {
+					for _, auth := range []string{"success", "failure", "other", "undec"} {
+						for _, after := range [][]string{{}, {"bind", "error"}, {"o3", "false"}} {
+							s := happy(tlsOff, mand, smAdv).with("auth", auth).with(after...)
+							cases = append(cases, Case{ID: fmt.Sprintf("neg%d", n),
+								Variant: []string{"neg", "insecure=" + strconv.FormatBool(insecure), "sm=" + strconv.FormatBool(smAdv)},
+								Ops:     [][]string{s.op()}})
+							n++
+							st.Inc("session_auth_" + auth)
+						}
+					}
+				}
+			}
+		}
+	}
+	st.Note(fmt.Sprintf("%d whole negotiations: reply classes {success, failure, other element, undecodable/closed} to <auth/> x insecure x STARTTLS x session-mandatory x sm, the server answering every later step as if nothing had happened", n))
+	return cases
+}
+
 func (c14) Generate(rng *rand.Rand, tier string, st *Stats) []Case {
 	var cases []Case
+	cases = append(cases, c14negCases(st)...)
 	n := 0
 	add := func(op ...string) {
 		cases = append(cases, Case{ID: fmt.Sprintf("c%d", n), Ops: [][]string{op}})
